@@ -86,6 +86,13 @@ var propSpecs = map[string]*PropSpec{
 		Technique: "contract-based deductive verification: (a) totality: every instruction of the replay loop, of tombstone application and of the read-side graph functions that can panic has a discharged safety obligation for EVERY event list; (b) determinism: every sort comparator that feeds output is proved a total order on the items it sorts (epics: defect repaired), map-derived slices are sorted; (c) read purity: list, show, where and prune without --yes are proved to call no write primitive (ghost log version and commit counter unchanged, no file creation except the lock file); ",
 		Assume: []string{"readEvents (line scanner, located parse errors) is an assumed contract until the storage layer is under contract; topoSortTasks/collectEpicChildren and the tree renderer are assumed pure; `promptly` (time bounds) is not expressible; append-only is carried by the assumed appendEvents contract (O_APPEND)"},
 	},
+	"C17": {
+		ID: "C17", Title: "Titles and bodies come back exactly as they went in", Exclude: cat(txLabels, jsonLabels),
+		Funcs:     cat([]string{"buildSetEvents", "applySetUpdates$1", "createTaskWithDir$1", "applyLegacyTitleMigration", "buildTaskShowOutput", "(*TaskInput).GetTitle", "(*TaskInput).GetBody", "buildFlagUpdates", "newEvent", "validateTransition", "validateClaimInvariant"}, replayFuncs),
+		Bounded:   []string{"textRoundTrip"},
+		Technique: "contract-based deductive verification of identity dataflow: the create section puts title and body into the event unchanged; the set builder emits trimSpace(title) and the body verbatim; one iteration of the real replay loop copies the event's text into the addressed item and leaves every other item's text alone, for every event type; a created item carries the create event's text; the legacy-title migration is proved a no-op on titled items; show copies the fields; JSON encoding itself is trusted and exercised by a bounded stand-in through the real chain",
+		Assume:    []string{"encoding/json round trip on strings (trusted table); BOUNDED stand-in: every string of 1..2 (thorough: 1..3) code points over 32 troublemakers (quotes, backslash, NUL, control, <>&, U+2028/9, BOM, U+FFFD, plane-1/16, combining) plus two strings of several hundred kilobytes through newEvent -> appendEvents -> readEvents -> replayEvents -> show JSON", "the command entry points (which input mode trims) are covered for flags (buildFlagUpdates) and JSON getters; RunNewTask/RunSet wiring is under contract for C10/C16 only"},
+	},
 	"C18": {
 		ID: "C18", Title: "Every command finds the same store, and init never hides data", Exclude: cat(txLabels, jsonLabels),
 		Funcs:     cat(lockFuncs, []string{"getEventsPath", "RunInit", "loadGraph"}, []string{"applyTombstone", "sortedKeys", "replayEvents"}),
